@@ -54,7 +54,8 @@ Next == Shift \/ Mark \/ \E p \in PN : Expand(p)
 Spec == Init /\ [][Next]_vars
 Done == stack = <<>>
 \* variants per class; chosen by position so that every variant meets every neighbour somewhere
-NameV == << <<97>>, <<101,49>>, <<95,120>>, <<200,98>> >>
+NameV == << <<97>>, <<101,49>>, <<95,120>>, <<200,98>>, <<65>>, <<200,116,111,112>> >>       \* a e1 _x \xc8b A \xc8top
+LabelV == << <<58,58,108,58,58>>, <<58,58,200,116,111,112,58,58>>, <<58,58,101,49,58,58>> >>   \* ::l:: ::\xc8top:: ::e1::
 NumV == << <<49>>, <<49,46>>, <<46,53>>, <<48,120,49,102>>, <<50,101,51>>, <<48,98,49,46,49>> >>
 StrV == << <<34,115,34>>, <<39,116,39>>, <<91,91,117,93,93>>, <<91,61,91,118,93,61,93>> >>
 BinV == <<"+", "-", "..", "<", ">>>", "and", "==", "\\", "^^", "/", "%", "<=", "~=", "!=", "*", "^", "&", "|", "<<", ">>", "<<>", ">><", "or", ">", ">=">>
@@ -65,7 +66,7 @@ StripPrefix(t) == \* "k:do" -> "do"; terminals are at most 10 chars
   CHOOSE x \in DOMAIN SpellOf : t = "k:" \o x \/ t = "s:" \o x
 Spell(t, k) ==
   CASE t = "Name" -> Pick(NameV, k) [] t = "Number" -> Pick(NumV, k) [] t = "String" -> Pick(StrV, k)
-    [] t = "Label" -> <<58,58,108,58,58>> [] t = "binop" -> SpellOf[Pick(BinV, k)] [] t = "unop" -> SpellOf[Pick(UnV, k)]
+    [] t = "Label" -> Pick(LabelV, k) [] t = "binop" -> SpellOf[Pick(BinV, k)] [] t = "unop" -> SpellOf[Pick(UnV, k)]
     [] t = "assignop" -> SpellOf[Pick(AsgV, k)] [] t = "fieldsep" -> Pick(<< <<44>>, <<59>> >>, k)
     [] OTHER -> SpellOf[StripPrefix(t)]
 \* two spellings written back to back must lex to exactly those two tokens
